@@ -27,12 +27,13 @@ import ast
 from typing import Any
 
 from ..engine.absint import Obj
-from ..engine.normalize import ANCHOR_NAMES
+from ..engine.cfg import CFG
+from ..engine.normalize import ANCHOR_NAMES, inline_helpers, normalize, positional
 from ..engine.report import AnalysisError, Run
 from ..engine.resolver import ClassInfo, FuncInfo, Program
-from ..engine.util import u
-from ._c11_util import (MATRYOSHKA, REQ_SENDER_ATTR, ActorInterp, Flag, ResolverInterp, Sym, is_shift,
-                        lin_of, structural_controls)
+from ..engine.util import method_call, nodes_with_call, normal_edge, u
+from ._c11_util import (MATRYOSHKA, REQ_SENDER_ATTR, ActorInterp, Flag, ResolverInterp, Sym, dataclass_fields,
+                        is_shift, lin_of, structural_controls)
 
 ACTOR = "microgrid._power_managing._power_managing_actor:PowerManagingActor"
 MODULE = "microgrid._power_managing._power_managing_actor"
@@ -293,6 +294,67 @@ def check_resolver(run: Run, prog: Program) -> None:
         raise AnalysisError(f"{fn.qual}: too few None/new-target paths explored ({n_none}/{n_new})")
 
 
+def check_reported_target(run: Run, prog: Program) -> None:
+    """What the manager adds up (get_target_power) and what the actors are told (_Report.target_power
+    from get_status) are both the stored target of the group."""
+    cls = prog.cls(MATRYOSHKA)
+    gt = prog.func(f"{MATRYOSHKA}.get_target_power")
+    run.analysed(gt.qual)
+    interp = ResolverInterp(prog, cls)
+
+    def make_args() -> dict[str, Any]:
+        interp.ids = Sym("ids")
+        interp.bucket = ("absent", "empty", "nonempty")[interp.choose(3, "bucket absent/empty/non-empty")]
+        if interp.choose(2, "a target is stored") == 1:
+            interp.stored = Sym("stored_target")
+        interp.inputs = {"stored": interp.stored}
+        return interp.bind_args(gt.node, [interp.ids], {}, self_value=Obj("self"))
+
+    for out in interp.explore(gt.node, make_args):
+        want = out.state["inputs"]["stored"]
+        ok = out.kind == "return" and out.value is want and out.state["stored"] is want
+        node = out.state["ret_node"] if out.state["ret_node"] is not None else gt.node
+        run.check(ok, "C11.SUM", gt.qual, node,
+                  f"get_target_power answers `{out.value}` ({out.kind}) while the stored target is `{want}`: "
+                  f"the manager would add up something else than the group's current target ({_desc(out)})",
+                  node=node, file=gt.file, instance=f"get_target_power is the stored target: {_desc(out)}")
+    # get_status: every report carries the stored target
+    gs0 = prog.func(f"{MATRYOSHKA}.get_status")
+    run.analysed(gs0.qual)
+    gs = normalize(prog, gs0)
+    ids = gs0.params[1]
+    rep_cls = prog.resolve_name(gs0.module, "_Report")
+    fields = dataclass_fields(rep_cls) if isinstance(rep_cls, ClassInfo) else []
+    reports = [n for n in ast.walk(gs.node) if isinstance(n, ast.Call) and u(n.func).split(".")[-1] == "_Report"]
+    if not reports:
+        raise AnalysisError(f"{gs0.qual}: no _Report construction found")
+    for call in reports:
+        if call.args and not fields:
+            raise AnalysisError(f"{gs0.qual}: positional _Report(...) but the class is not resolved")
+        val = positional(call, fields).get("target_power")
+        ok = val is not None and _is_stored_target(val, ids)
+        if not ok and val is not None and "_target_power" in u(val):
+            raise AnalysisError(f"{gs0.qual}: report target `{u(val)}` reads the stored target in a form that "
+                                "is not recognised")
+        run.check(ok, "C11.REQ", gs0.qual, f"_Report(target_power={u(val)})",
+                  f"the report tells the actors the target `{u(val)}`, not the group's stored target "
+                  "(self._target_power.get(component_ids)) that the manager adds to the request",
+                  node=call, file=gs0.file, instance=f"report target is the stored target (line {call.lineno})")
+
+
+def _is_stored_target(e: ast.AST, ids: str) -> bool:
+    """`self._target_power.get(<ids>)` or `self.get_target_power(<ids>)` (argument by position or name)."""
+    if not (isinstance(e, ast.Call) and isinstance(e.func, ast.Attribute)):
+        return False
+    args = list(e.args) + [k.value for k in e.keywords]
+    if len(args) != 1 or not (isinstance(args[0], ast.Name) and args[0].id == ids):
+        return False
+    f = e.func
+    if f.attr == "get" and u(f.value) == "self._target_power":
+        return True
+    return f.attr == "get_target_power" and u(f.value) == "self"
+
+
 def interp_bucket(out: Any) -> Any:
     """The bucket object of the run (the value handed to _calc_target_power must be it)."""
     for e in out.state["events"]:
@@ -379,6 +441,30 @@ def check_req(run: Run, prog: Program) -> None:
     check_send_updated(run, prog, cls, su)
     check_bounds_tracker(run, prog, cls)
     check_reports(run, prog, cls)
+    check_run(run, prog, cls)
+
+
+def check_run(run: Run, prog: Program, cls: ClassInfo) -> None:
+    """Event loop: whenever the target power is recomputed (proposal, retry), the reports are sent
+    before the next event is taken - otherwise the request no longer equals the targets the actors
+    were last told.  Decided on the CFG of _run with simple private helpers spliced in."""
+    rn = prog.func(f"{ACTOR}._run")
+    run.analysed(rn.qual)
+    cfg = CFG(inline_helpers(prog, rn), rn.file)
+    ups = nodes_with_call(cfg, lambda c: method_call(c, "self", "_send_updated_target_power"))
+    reps = nodes_with_call(cfg, lambda c: method_call(c, "self", "_send_reports"))
+    if not ups:
+        raise AnalysisError(f"{rn.qual}: no recomputation (_send_updated_target_power) found")
+    heads = [n.id for n in cfg.nodes if n.kind in ("for", "while")] + [cfg.exit]
+    for up in ups:
+        wit = cfg.path(up, heads, avoid=reps, edge_ok=normal_edge, include_src=False)
+        construct = next((c for c in ast.walk(cfg.nodes[up].ast) if isinstance(c, ast.Call)  # type: ignore[arg-type]
+                          and method_call(c, "self", "_send_updated_target_power")), cfg.nodes[up].ast)
+        run.check(wit is None, "C11.REQ", rn.qual, construct,
+                  "after this recomputation the next event can be taken without _send_reports: the request "
+                  "just sent no longer equals the targets the actors were last told",
+                  node=cfg.nodes[up].ast, file=rn.file, path=cfg.describe_path(wit),
+                  instance=f"reports follow the recomputation at line {cfg.nodes[up].lineno}")
 
 
 def _enclosing_call(fn: ast.AST, n: ast.AST) -> ast.AST:
@@ -604,12 +690,18 @@ CONTROLS = [
     ("resolver skips an emptied bucket", "microgrid._power_managing._matryoshka",
      "        if proposals is None:\n            return None\n", "        if not proposals:\n            return None\n",
      "C11.SUM"),
+    ("reports dropped after a proposal", "microgrid._power_managing._power_managing_actor",
+     "                await self._send_reports(proposal.component_ids)\n", "                pass\n", "C11.REQ"),
+    ("report target is not the stored target", "microgrid._power_managing._matryoshka",
+     "            target_power=target_power,\n            _inclusion_bounds=timeseries.Bounds",
+     "            target_power=None,\n            _inclusion_bounds=timeseries.Bounds", "C11.REQ"),
 ]
 
 
 def run_rules(run: Run, prog: Program) -> None:
     check_calc(run, prog)
     check_resolver(run, prog)
+    check_reported_target(run, prog)
     check_shift_fn(run, prog)
     check_req(run, prog)
 
